@@ -95,23 +95,28 @@ ADDENDA = {
 
 # clauses added in the second seeded round (DESIGN §9.8/§9.9)
 ADDENDA2 = {
-    "C02": "Also: the mpmc-unbounded hand-off session (values bound to parked receivers at publish time) is unreachable on the live control-flow graph.",
+    "C02": "Also: the mpmc-unbounded hand-off session (values bound to parked receivers at publish time) is unreachable on the live control-flow graph. Batch fill functions never hand the caller's iterator to a recursive call of themselves before their own next() calls.",
     "C04": "Also: a counted clone is born open (closed = constant false on every path that registers it); a clone is registered only behind the not-closed edge of the source "
            "handle's flag (a closed handle's clone does not revive its side); a Disconnected read off a waiter state stored by the closer is followed by a re-drain wherever the "
            "channel has a buffer; oneshot observers read sender_count before the state.",
     "C05": "Also: where one notify can publish several items but wakes one waiter, consumers pass the wake on (live-CFG baton rule); a counted clone is born open, so the "
-           "last-handle disconnect stays reachable.",
+           "last-handle disconnect stays reachable. A count-guarded notify (`if got > 0`) may be skipped only on the zero outcome of that count; every successful dequeue of the wake-one protocol is followed by the baton on every path.",
     "C03": "Also: the `valid` count of a claimed run is min(claimed, window_end.saturating_sub(ticket)) in both claim functions.",
-    "C07": "Also: modify closures never replace the cursor list by captured data; the spmc receive forms decide Disconnected only after another look at head/the slot (27 sites shared with C04-5).",
-    "C08": "Also: the closures given to left_right::modify update the subscriber list in place, never by installing a snapshot computed earlier (lost update).",
-    "C10": "Also: every Poll::Pending of the three lock futures follows ListGuard::rearm in the same poll.",
-    "C11": "Also: the shard array indexed with `hash & (len-1)` has a power-of-two length by construction on every builder path.",
+    "C07": "Also: modify closures never replace the cursor list by captured data; the spmc receive forms decide Disconnected only after another look at head/the slot (27 sites shared with C04-5). A publish that writes several slots drains each written slot's waker list.",
+    "C08": "Also: the closures given to left_right::modify update the subscriber list in place, never by installing a snapshot computed earlier (lost update). Nothing removes a topic's entry from the dispatcher map.",
+    "C10": "Also: every Poll::Pending of the three lock futures follows ListGuard::rearm in the same poll. In wake_waiters the woken writer stays linked and the flags are not recomputed on its path (the writer gate stays up while it re-contends).",
+    "C11": "Also: the shard array indexed with `hash & (len-1)` has a power-of-two length by construction on every builder path. clear() reaches the map-clearing loop on every path (no early return decided from a counter).",
     "C12": "Also: the stale-while-revalidate arm is entered through the `now >= expires_at` outcome, not through is_expired (which also covers the idle timeout).",
     "C13": "Also: a wholesale reset of the gauge to 0 happens while every shard's write guard is held.",
     "C16": "Also: an `Expired` notification is tied to is_expired of the removed entry, tested in the removal's critical section (1 demonstrated known finding shared with C12).",
     "C17": "Also: the reference clock for persisted remaining lifetimes is sampled before the liveness test.",
     "C18": "Also: only the registration functions mutate a container's provider table; the resolution path never writes back.",
-    "C19": "Also: the per-actor logger-rule lookup in process_event is unconditional (every actor's rules take part in the most-specific-logger decision).",
+    "C19": "Also: the per-actor logger-rule lookup in process_event is unconditional (every actor's rules take part in the most-specific-logger decision). The `::`-boundary test is upstream of the longest-prefix selection in find_most_specific_rule; sends are recognised by position in the dispatch path, not by helper names.",
+    "C01": "Also: in the bounded mpsc dequeue functions every advance of the consumer position follows a reset of the slot state to EMPTY (value slots and SKIP tombstones alike).",
+    "C06": "Also: the baton rule of C05-6 is reported for the futures (a pending receive is woken for items another receiver leaves behind).",
+    "C09": "Also: only the admitted functions (consumer pop, single producer's overwrite, teardown) destroy or move out MaybeUninit payload cells; a new destroyer fails closed.",
+    "C14": "Also: the helper on_admit hands the cost to records it on every edge on which it found the key tracked.",
+    "C15": "Also: the miss paths re-check the store under the stripe guard before inserting a marker (2 demonstrated known findings: the loader can run twice for one miss).",
 }
 
 NOT_APPLICABLE = {
